@@ -140,13 +140,13 @@ def run_case(run, spec):
     s2 = built2[0]
     if spec["main_kind"] in ("rec", "rec_noepoch", "torch_seq", "kd_dist", "torch_dist2"):  # reproducible draws
         def batches():
-            out = []
+            held = []  # the batch objects are kept (as a DataLoader's index queue / prefetching does) and read after the iteration
             with H.StepBudget(200 * cap + 5000, H.sched_codes(), what="batch sampler"):
                 for b in s2.batch_sampler:
-                    out.append([int(i) for i in b])
-                    if len(out) > cap:
+                    held.append(b)
+                    if len(held) > cap:
                         break
-            return out
+            return [[int(i) for i in b] for b in held]
         ok, got = call_real(run, batches, what="list(sampler.batch_sampler)")
         if not ok:
             return
@@ -156,6 +156,19 @@ def run_case(run, spec):
         want_main = [b for b in want if b and b[0] < M]
         if got_main != want_main or rest:
             run.violation("batch-sampler", f"{_desc(spec)}: main batches from batch_sampler {got_main[:6]}… vs model {want_main[:6]}…")
+            return
+    # ---- a second iteration of the SAME sampler object starts from the beginning again (no state survives an iteration)
+    if spec["main_kind"] in ("rec", "torch_seq", "kd_dist", "torch_dist2") and spec["seed"] % 3 == 0:  # draws that depend on the announced epoch only
+        first = list(events)
+        del events[:]
+        ok, finished2 = call_real(run, lambda: H.consume(sampler, events, cap), what="iterating the same InterleavedSampler a second time")
+        if not ok:
+            return
+        run.count("reiterations_compared")
+        if not finished2 or _main_only(events, M) != _main_only(first, M):
+            run.violation("second-iteration-differs", f"{_desc(spec)}: iterating the same sampler object again gives a different main stream "
+                                                      f"({len(_main_only(events, M))}{'+' if not finished2 else ''} vs {len(_main_only(first, M))} main events; first differing event "
+                                                      f"{next((i for i, (a, b) in enumerate(zip(_main_only(events, M), _main_only(first, M))) if a != b), None)})")
             return
     run.sample({"spec": _desc(spec), "main_events": len(real_main), "epochs_announced": [e for e, _ in want_epochs], "head": events[:10]})
 
